@@ -82,9 +82,13 @@ def gen_cfg(rng, kinds=ALL, ty=None, probe=True, nch=None, max_chunk=None, sinc_
     ri, ro = rng.choice([(44100, 48000), (48000, 44100), (48000, 96000), (96000, 48000), (44100, 88200),
                          (16000, 48000), (48000, 16000), (8000, 44100), (44100, 8000), (3, 2), (2, 3), (1, 1),
                          (7, 5), (147, 160), (1000, 1001), (48000, 48000), (44100, 44101)])
-    if ri * ro > 10 ** 8 and kind != "fftio":
-        pass
+    if rng.random() < 0.4:
+        std = [8000, 11025, 16000, 22050, 32000, 44100, 48000, 88200, 96000, 176400, 192000]
+        ri, ro = rng.choice(std), rng.choice(std)
     chunk = rng.choice([1, 2, 7, 10, 64, 100, 147, 160, 256, 441, 480, 1000, 1024, 2048])
+    if rng.random() < 0.5:
+        # any request size: the block-size arithmetic (f32 ceil, integer products) must be right for all of them
+        chunk = rng.randint(1, 4096)
     g = math.gcd(ri, ro)
     # keep FFT sizes small enough to be fast
     if max(ri, ro) // g > 3000:
